@@ -14,6 +14,7 @@ specfn = SPECS.specfn
 z3fn = SPECS.z3fn
 getter = SPECS.getter
 literal = SPECS.literal
+ghost_after = SPECS.ghost_after
 
 
 def lemma(name, text, props, note=''):
